@@ -93,7 +93,8 @@ Definition calc_expire (align : bool) (period unix offset : Z) : result Z :=
    ARGV of its script call: quota and calcExpireSeconds() of its limiter) *)
 Inductive pop :=
 | PTick (d : Z)
-| PTake (k : nat) (limit window : Z) (up : bool).
+| PTake (k : nat) (limit window : Z) (up : bool)
+| PReplace.   (* the server is replaced by a fresh instance (restart without persistence, fail-over): empty store *)
 
 Definition pstate : Type := Z * store.
 
@@ -103,6 +104,7 @@ Definition pstep (st : pstate) (o : pop) : pstate * option (nat * result Z) :=
   | PTake k limit window up =>
       let (s', r) := take (fst st) up k limit window (snd st) in
       ((fst st, s'), Some (k, r))
+  | PReplace => ((fst st, []), None)
   end.
 
 Fixpoint prun (st : pstate) (ops : list pop) : list (nat * result Z) :=
@@ -244,6 +246,7 @@ Inductive tev :=
 | TTick (d : Z)                        (* the clock advances by d ms *)
 | TAllow (now n : Z) (cx : ctxs)       (* AllowNCtx(cx, now, n) *)
 | TFault (eup pup : bool)              (* the server starts/stops answering EVAL / PING *)
+| TReplace (eup pup : bool)            (* the server is replaced by a FRESH instance: empty store (and script cache) *)
 | TPing                                (* a ticker round of the monitor goroutine *)
 | TExit.                               (* the monitor goroutine's deferred function *)
 
@@ -255,6 +258,7 @@ Definition tstep (c : tcfg) (st : tstate) (e : tev) : tstate * option bool :=
   | TTick d => ((mkW (clock w + d) (rstore w) (eval_up w) (ping_up w), l), None)
   | TAllow now n cx => let '(w', l', ok) := reserve c w l now n cx in ((w', l'), Some ok)
   | TFault eup pup => ((mkW (clock w) (rstore w) eup pup, l), None)
+  | TReplace eup pup => ((mkW (clock w) [] eup pup, l), None)
   | TPing => ((w, ping w l), None)
   | TExit => ((w, monitor_exit l), None)
   end.
